@@ -251,6 +251,8 @@ def r_framefile(prog, tier):
                         opts = unparse(d[1])
                 desc.append(('apply', unparse(c.func) == 'globals()[%s]' % alg,
                              [unparse(a) for a in c.args] == [T], opts))
+            elif isinstance(st, ast.Expr) and isinstance(st.value, ast.Call) and unparse(st.value.func) == 'globals()[%s]' % alg:
+                desc.append(('apply-result-dropped', unparse(st)[:50]))
             elif isinstance(st, ast.If) and not st.orelse and len(st.body) == 1 and isinstance(st.body[0], ast.Break):
                 nt = norm_test(st.test, True)
                 desc.append(('stop-when-dropped', nt[0] == 'none' and nt[2] is True))
@@ -261,8 +263,9 @@ def r_framefile(prog, tier):
     expected = norm[0] == [('apply', True, True, 'misc.options_dict(args.params)'), ('stop-when-dropped', True)]
     obs.append(Ob('R-FRAMEFILE/ONCE', f.fq, 'split and plain branch apply the transformations identically (each with '
                   'the --params options, stopping when a tree is dropped)',
-                  True if (same and expected) else (None if any(d_[0] == 'other' for x_ in norm for d_ in x_)
-                                                    or any(len(x_) > 2 or not x_ for x_ in norm) else False),
+                  True if (same and expected) else (False if any(d_[0] == 'apply-result-dropped' for x_ in norm for d_ in x_) else (
+                      None if any(d_[0] == 'other' for x_ in norm for d_ in x_)
+                      or any(len(x_) > 2 or not x_ for x_ in norm) else False)),
                   'both loops: tree = globals()[algorithm](tree, **options_dict(args.params)); break when None'
                   if same and expected else 'loops differ or are not the documented pipeline: %s vs %s' % (norm[0], norm[1]),
                   construct='once-trans', line=tl[0].lineno))
@@ -554,6 +557,11 @@ def r_splitarith(prog, tier):
                   '(e.g. 29%% of 100 gives 28)'
         else:
             why = 'abstract value %s' % t
+        if ok is not False and isinstance(val, ast.Call) and isinstance(val.func, ast.Name) and val.func.id == 'min' \
+                and any(unparse(a_) == A.size for a_ in val.args):
+            ok = False
+            why = 'the part is cut down to the number of trees (`%s`): a specification that demands more trees than exist is ' \
+                  'accepted and quietly changed instead of being rejected' % unparse(val)[:50]
         obs.append(Ob('R-SPLITARITH', f.fq, 'part size `%s` is an exact non-negative integer' % unparse(val)[:60], ok, why,
                       construct='split-%s:%s' % (what, unparse(val)), line=n.lineno))
         if what == 'add':
